@@ -137,6 +137,16 @@ class ExprMixin:
         for m2 in self.repo.modules:
             if name in self.repo.module_consts.get(m2, {}) and self._imports(mod, name):
                 return self.module_const(m2, name)
+        rel = self._relative_origin(mod, name)
+        if rel is not None and rel != mod and getattr(fr, '_chase', 0) < 4:
+            f2 = Frame(None, None, {}, spec=fr.spec)
+            f2.module = rel
+            f2.noforks = True
+            f2._chase = getattr(fr, '_chase', 0) + 1
+            try:
+                return self.global_name(name, f2, node)
+            except Unsupported:
+                pass
         org = self._import_origin(mod, name)
         if org is not None:
             key = f"{org[0]}.{org[1]}"
@@ -154,6 +164,18 @@ class ExprMixin:
                                                   'mimetypes', 'plistlib', 'yaml', 'json5', 'csv', 'pickle'):
             return VOpaque(name, 'module')
         raise Unsupported(f"unresolved name {name!r} at line {getattr(node, 'lineno', '?')}")
+
+    def _relative_origin(self, mod, name):
+        """The package module from which `name` is imported by `from .m import name` in module mod."""
+        tree = self.repo.modules.get(mod) if mod else None
+        if tree is None:
+            return None
+        for n in ast.walk(tree):
+            if isinstance(n, ast.ImportFrom) and n.level >= 1 and n.module and n.module in self.repo.modules:
+                for a in n.names:
+                    if (a.asname or a.name) == name and a.asname in (None, name):
+                        return n.module
+        return None
 
     def _import_origin(self, mod, name):
         """(external module, original name) if `name` is bound by `from <absolute module> import ...` in module mod."""
